@@ -290,6 +290,9 @@ class Scaling(Interp):
             return unk("non-value")
         if isinstance(op, ast.Mult):
             for x, y in ((a, b), (b, a)):
+                if x.kind == "unit" and y.kind in ("sig", "sigpart", "out", "rnd"):
+                    return y  # multiplication by a unit-modulus phasor preserves power and variance
+            for x, y in ((a, b), (b, a)):
                 if x.kind == "dir" and y.kind == "unk":
                     return SV("dir", None, why="direction times an undetermined magnitude")
         if a.kind == "unk":
@@ -477,6 +480,12 @@ class Scaling(Interp):
                 return unk(f"real and imaginary noise with different variances {a.show()} / {b.show()}")
             if a.kind in ("sig", "sigpart") and b.kind == "zero":
                 return SV("sig", a.m, src=a.src)
+            if a.kind in ("sig", "sigpart") and b.kind in ("sig", "sigpart") and a.m is not None and a.m == b.m:
+                return SV("sig", a.m, src=a.src)  # a complex signal assembled from two processed rails
+            if a.kind == "out" and b.kind == "out" and a.m is not None and a.m == b.m:
+                if a.var is not None and b.var is not None and a.var == b.var:
+                    return SV("out", a.m, a.var * Mono.const(2), cplx=True, src=a.src)  # independent noise on each rail: variances add
+                return unk(f"rails with different noise variances {a.show()} / {b.show()}")
             if a.kind == "det" and a.tag == "ones" and b.kind == "zero":
                 return a
             return unk(f"complex({a.show()}, {b.show()})")
@@ -505,6 +514,10 @@ class Scaling(Interp):
             return SV("bool") if short in ("any", "all", "is_complex") else NONE_V
         if short in ("stack",) and args:
             return args[0]
+        if short == "exp" and node.args and any(isinstance(x, ast.Constant) and isinstance(x.value, complex) for x in ast.walk(node.args[0])):
+            return SV("unit")  # exp(1j * real): unit modulus
+        if short == "angle" and target is not None and target.kind in ("sig", "sigpart"):
+            return SV("none")
         if short in ("exp", "angle", "log", "sign", "polar", "poisson", "cat"):
             return unk(f"call {name}")
         allv = ([recv] if recv is not None else []) + args + list(kw.values())
